@@ -30,6 +30,7 @@ import (
 	"slices"
 	"sort"
 	"strconv"
+	"unsafe"
 
 	"github.com/creachadair/mds/slice"
 	"verif/harness/internal/tr"
@@ -103,6 +104,24 @@ func yMk[T comparable](c codec[T], pre, extra int, vals []int) (base, vs []T) {
 	return base, base[pre : pre+n : pre+n+extra]
 }
 
+// yView is viewT with the elements compared by their codes (NaN != NaN would report a change).
+func yView[T comparable](c codec[T], base []T, pre, n int, r []T) xview {
+	v := xview{off: "-", ln: len(r), cp: cap(r)}
+	if cap(r) > 0 {
+		v.off = offT(base, unsafe.SliceData(r))
+	}
+	snap := slices.Clone(base)
+	before := codes(c, base)
+	_ = append(r, c.enc(xSentinel))
+	for i, x := range codes(c, base) {
+		if x != before[i] && i >= pre && pre >= 0 && i < pre+n {
+			v.overwrit = true
+		}
+	}
+	copy(base, snap)
+	return v
+}
+
 func runY[T comparable](c codec[T], f []string) string {
 	op := f[1]
 	if op == "K" {
@@ -169,7 +188,7 @@ func runY[T comparable](c codec[T], f []string) string {
 			if r == nil {
 				isNil = "N"
 			}
-			v := viewT(c, base, pre, n, r, true)
+			v := yView(c, base, pre, n, r)
 			return v.String() + " " + elems + " " + tr.Ints(codes(c, base)) + " " + isNil
 		})
 	case "L":
